@@ -1,5 +1,6 @@
 import Driver.Common
 import TxdbusModel.Intro.Xml
+import TxdbusModel.Intro.Registry
 /-!
 Driver for property C15: runs the code model of interface.py / introspection.py on one case per line.
 
@@ -7,15 +8,19 @@ Strings travel as tokens `=<chars>`: characters of `[A-Za-z0-9_./(){}]` raw, eve
 (6 hex digits of the code point); the empty string is `=`.
 
 Input lines
-  doc <replace> <path> K <n> <ifacedef>*n X <n> (<objpath> <n> <ifacedef>*n)*n Q <n> (<filter|-> <method> <nargs>)*n
+  doc <replace> <path> K <n> <ifacedef>*n [F <n> <attempt>*n G <n> <attempt>*n] X <n> (<objpath> <n> <ifacedef>*n)*n Q <n> (<filter|-> <method> <nargs>)*n
   evs <replace> K <n> <ifacedef>*n E <n> (S <name> <n> (<key> <value>)*n | E <name>)*n
   ifacedef := <name> <n> <op>*n
+  attempt  := <name> <register> <n> <ctorarg>*n     `DBusInterface(name, *args[, noRegister=True])` inside try/except;
+              ctorarg := m … | M … | s … | S … | p … (a member object, as in op) | o (not a member object)
+              F: attempts made after the cache was filled and before the first parse; G: between the two parses
   op       := m <name> <in> <out> | M <name> <in> <out> <nargs> <nret> (object already counted) | s <name> <sig>
               | S <name> <sig> <nargs> (already counted) | p <name> <sig> <r> <w> <t|f|i> | dm <name> | ds <name>
               | dp <name> | x
 Output
   doc:  `none` | `err <kind>` | `ok <events>|<result>|<calls>|2|<result of a second parse of the same events with
-        the other flag on the cache left by the first>`   (a result may be `err <kind>`)
+        the other flag on the cache left by the first>[|F|<outcome>,…|<outcome>,…]`   (a result may be `err <kind>`;
+        outcome := ok | e:<kind>, the F and the G attempts, only when the line has an F section)
   evs:  <result>
   events := event;event;…     event := S,<name>,<k>=<v>,… | E,<name>
   result := R,<ref>,…|C,<name>=<ref>,…|H,<iface>;<iface>;…       ref := k<i> (known object i) | n<j> (j-th new object)
@@ -154,6 +159,7 @@ def buildObjs : List (List Char × List (List Char × List Op)) → Except Err (
       | .ok rs => .ok ((p, cs) :: rs)
 
 def errName : Err → String
+  | .notMember => "typeError"
   | .split .typeError => "typeError"
   | .split .stopIteration => "stopIteration"
   | .keyError => "keyError"
@@ -194,6 +200,46 @@ name overwrites the entry (`knownInterfaces[name] = obj` in list order) -/
 def knownOf (ks : List Cached) : List (List Char × Nat) :=
   (ks.zipIdx).foldl (fun acc (c, j) => kset acc c.iface.name j) []
 
+/-- a positional argument of the constructor: a member object or `o` (anything else) -/
+def ctorArg : P CtorArg := do
+  match (← get) with
+  | "o" :: ts => set ts; pure .other
+  | _ =>
+    let o ← op
+    match o with
+    | .addMethod m => pure (.method m)
+    | .addSignal s => pure (.signal s)
+    | .addProperty p => pure (.property p)
+    | _ => throw "bad constructor argument"
+
+def attempt : P (List Char × Bool × List CtorArg) := do
+  let n ← str
+  let r ← flag
+  let a ← counted ctorArg
+  pure (n, r, a)
+
+/-- the optional `F … G …` section -/
+def attempts : P (Option (List (List Char × Bool × List CtorArg) × List (List Char × Bool × List CtorArg))) := do
+  match (← get) with
+  | "F" :: ts =>
+    set ts
+    let f ← counted attempt
+    expect "G"
+    let g ← counted attempt
+    pure (some (f, g))
+  | _ => pure none
+
+/-- `try: DBusInterface(...) except: …` one after the other: outcomes and the process afterwards -/
+def runAttempts (w : Proc) : List (List Char × Bool × List CtorArg) → List String × Proc
+  | [] => ([], w)
+  | (n, r, a) :: rest =>
+    let (res, w') := w.construct n a r
+    let o := match res with
+      | .ok _ => "ok"
+      | .error e => "e:" ++ errName e
+    let (os, w'') := runAttempts w' rest
+    (o :: os, w'')
+
 def query : P (Option (List Char) × List Char × Nat) := do
   let f ← tok
   let filter ← if f == "-" then pure none else
@@ -214,6 +260,7 @@ def docCase : P String := do
   let path ← str
   expect "K"
   let kdefs ← counted ifaceDef
+  let att ← attempts
   expect "X"
   let objs ← counted (do let p ← str; let ds ← counted ifaceDef; pure (p, ds))
   expect "Q"
@@ -228,17 +275,23 @@ def docCase : P String := do
       | .error e => pure ("err " ++ errName e)
       | .ok none => pure "none"
       | .ok (some evs) =>
-        let heap := ks.map (·.iface)
-        match getInterfaces heap (knownOf ks) replace evs with
+        -- the process after the cache was filled, then the constructions attempted before the first parse
+        let (before, between) := att.getD ([], [])
+        let (o1, w1) := runAttempts ⟨ks.map (·.iface), knownOf ks⟩ before
+        match getInterfaces w1.heap w1.known replace evs with
         | .error e => pure (sep "|" ["ok " ++ showEvents evs, "err " ++ errName e])
         | .ok st =>
           let rec_ := st.result.filterMap id
           let calls := qs.map fun (f, m, n) => showCall (callCheck rec_ f m n)
+          -- the constructions attempted between the two parses
+          let (o2, w2) := runAttempts ⟨st.heap, st.known⟩ between
           -- the same text parsed a second time, with the other flag, on the cache the first parse left
-          let second := match getInterfaces st.heap st.known (!replace) evs with
+          let second := match getInterfaces w2.heap w2.known (!replace) evs with
             | .error e => "err " ++ errName e
             | .ok st2 => showResult ks.length st2
-          pure (sep "|" ["ok " ++ showEvents evs, showResult ks.length st, sep "," ("Q" :: calls), "2", second])
+          let tail := if att.isSome then ["F", sep "," o1, sep "," o2] else []
+          pure (sep "|" (["ok " ++ showEvents evs, showResult ks.length st, sep "," ("Q" :: calls), "2", second]
+                         ++ tail))
 
 def event : P Event := do
   let t ← tok
